@@ -13,6 +13,9 @@ from . import common
 from .common import py_call, with_alarm, CaseTimeout
 
 COEFFS = [-2.0, -1.0, -0.5, 0.5, 1.0, 2.0, 0.0]
+# exactly representable coefficients *close to* 1 (and pairs summing to such a value): a tolerant comparison with 1 in the
+# code (`isclose` instead of `!=`) is a difference only here
+NEAR_ONE = [1 + 2.0 ** -20, 1 - 2.0 ** -21, 1 + 2.0 ** -30, 1 - 2.0 ** -18]
 
 # wall-clock limit per rewrite step: non-termination (cyclic / inconsistent inputs) is an observable outcome ('fuel');
 # a limit hit under machine load is re-checked with a long limit in run_ops before it counts
@@ -526,7 +529,13 @@ def run_ops(corr, ops, metas):
                 and 'fuel' not in json.dumps(mo):
             STEP_TIMEOUT[0] = 120.0
             try:
-                impls[i] = IMPL[op['op']](json.loads(json.dumps(op)))
+                # (a step that timed out may not have recorded its CPython set orders: the model has to see the orders of
+                # the second run, otherwise it iterates ascending — a false disagreement under heavy machine load)
+                op2 = json.loads(json.dumps(op))
+                impls[i] = IMPL[op['op']](op2)
+                if json.dumps(op2, sort_keys=True) != json.dumps(op, sort_keys=True):
+                    ops[i] = op2
+                    replies[i] = drive_retry([op2])[0]
             except CaseTimeout:
                 pass
             finally:
@@ -649,6 +658,8 @@ def gen_chain_list(rng, L=None, kind=None):
     if kind == 0:
         tag = 'single'
         c = float(rng.choice([-2.0, -0.5, 0.5, 2.0, 1.0]))
+        if rng.random() < 0.3:
+            c = float(rng.choice(NEAR_ONE)); tag = 'single-near-one'
         chains = [gen_chain(rng, L, nids, charged)]
         chains[0][2] = enc(c)
     elif kind == 1:
@@ -672,6 +683,12 @@ def gen_chain_list(rng, L=None, kind=None):
             c = json.loads(json.dumps(base))
             c[2] = enc(float(rng.choice(COEFFS)))
             chains.append(c)
+        if rng.random() < 0.3:
+            # one term written twice, coefficients summing to a value close to 1
+            tag = 'same-ops-sum-near-one'
+            t = float(rng.choice(NEAR_ONE))
+            chains = [json.loads(json.dumps(base)), json.loads(json.dumps(base))]
+            chains[0][2] = enc(0.5); chains[1][2] = enc(t - 0.5)
     elif kind == 4:
         tag = 'full-length'
         chains = []
